@@ -77,7 +77,9 @@ class SRange:
 class LoopSpec:
     """Sidecar loop annotation, keyed by function + loop ordinal."""
 
-    def __init__(self, invariant=None, kinds=None, facts=None, unroll=False, havoc=None, index=None, checkpoint=False):
+    def __init__(self, invariant=None, kinds=None, facts=None, unroll=False, havoc=None, index=None, checkpoint=False, variant=None):
+        self.variant = variant  # (eng, st) -> Int term: bounded below by 0 whenever the body is entered, strictly smaller at every
+        # back edge (termination; while loops only)
         self.checkpoint = checkpoint  # constant-bounded loop: unrolled, but the invariant is asserted and
         # re-installed (by substitution through `kinds`) after every iteration so that terms stay small
         self.invariant = invariant  # (eng, st, k) -> [(name, Bool)]
@@ -461,7 +463,7 @@ class Engine:
         cp = spec is not None and spec.checkpoint and spec.invariant is not None
 
         def checkpoint(s, j, phase):
-            for nm, g in spec.invariant(self, s, z3.IntVal(j)):
+            for nm, g in self.inv_asserted(spec, s, z3.IntVal(j)):
                 self.oblige(f"{self.cur.qualname}.loop{k}.inv_{phase}.{nm}", s, g, kind="inv", site=node.lineno)
             self.havoc_locals(node, s, spec, z3.IntVal(j))
 
@@ -525,8 +527,11 @@ class Engine:
             return self.unroll_for(node, st, it, k, lo, hi, elem)
         outs = []
         # init: invariant holds for index lo
-        for nm, g in spec.invariant(self, st, lo):
+        self.shape_failed = False
+        for nm, g in self.inv_asserted(spec, st, lo):
             self.oblige(f"{self.cur.qualname}.loop{k}.inv_init.{nm}", st, g, kind="inv", site=node.lineno)
+        if self.shape_failed:
+            return []
         # arbitrary iteration
         head = st.fork()
         head.writes = set()
@@ -559,7 +564,7 @@ class Engine:
                 for s3, c3 in self.exec_block(node.body, s2):
                     self.check_loop_frame(k, s3, allowed, known_objs)
                     if c3 is None or isinstance(c3, Continue):
-                        for nm, g in spec.invariant(self, s3, i + 1):
+                        for nm, g in self.inv_asserted(spec, s3, i + 1):
                             self.oblige(f"{self.cur.qualname}.loop{k}.inv_step.{nm}", s3, g, kind="inv", site=node.lineno)
                     elif isinstance(c3, Break):
                         outs.append((s3, None))
@@ -592,8 +597,11 @@ class Engine:
                 if spec is None:
                     outs += self.unroll_while(node, s1, k)
                     continue
-                for nm, g in spec.invariant(self, s1, None):
+                self.shape_failed = False
+                for nm, g in self.inv_asserted(spec, s1, None):
                     self.oblige(f"{self.cur.qualname}.loop{k}.inv_init.{nm}", s1, g, kind="inv", site=node.lineno)
+                if self.shape_failed:
+                    continue
                 head = s1.fork()
                 head.writes = set()
                 snap = self.heap_snapshot(head)
@@ -616,10 +624,14 @@ class Engine:
                             outs.append((s3, None))
                             continue
                         self.loop_ord = k + 1
+                        v0 = None
+                        if spec.variant is not None:
+                            v0 = spec.variant(self, s3)
+                            self.oblige(f"{self.cur.qualname}.loop{k}.variant_bounded_below", s3, v0 >= 0, kind="variant", site=node.lineno)
                         for s4, c4 in self.exec_block(node.body, s3):
                             self.check_loop_frame(k, s4, allowed, known_objs)
                             if c4 is None or isinstance(c4, Continue):
-                                outs += self.back_edge(node, spec, k, s4)
+                                outs += self.back_edge(node, spec, k, s4, v0)
                             elif isinstance(c4, Break):
                                 outs.append((s4, None))
                             else:
@@ -742,7 +754,18 @@ class Engine:
                 continue
             raise EngineUnsupported(f"loop #{k} of {self.cur.qualname} writes heap location ({oid}, {key}) that its invariant does not cover")
 
-    def back_edge(self, node, spec, k, st):
+    def inv_asserted(self, spec, st, idx):
+        """The invariant's clauses at a point where it must be shown.  The sidecar reads the program state it talks about (a list
+        in a dict, an attribute); if that state does not exist at this point the invariant does not hold here - a failed
+        obligation like any other, not a checker error."""
+        try:
+            return list(spec.invariant(self, st, idx))
+        except (KeyError, AttributeError, IndexError, TypeError) as e:
+            self.abandoned = getattr(self, "abandoned", 0) + 1
+            self.shape_failed = True  # the caller abandons this path: the havocked head state cannot be built either
+            return [("state_the_invariant_describes_exists", z3.BoolVal(False))]
+
+    def back_edge(self, node, spec, k, st, v0=None):
         outs = []
         for s, c in self.ev(node.test, st):
             if isinstance(c, RaiseExc):
@@ -752,7 +775,11 @@ class Engine:
             if t is False:
                 outs.append((s, None))  # loop exits with this very state
                 continue
-            for nm, g in spec.invariant(self, s, None):
+            if v0 is not None:
+                tt = z3.BoolVal(True) if t is True else bool_term(t)
+                self.oblige(f"{self.cur.qualname}.loop{k}.variant_decreases", s, z3.Implies(tt, spec.variant(self, s) < v0), kind="variant",
+                            site=node.lineno, observe={"variant_before": v0, "variant_after": spec.variant(self, s)})
+            for nm, g in self.inv_asserted(spec, s, None):
                 self.oblige(f"{self.cur.qualname}.loop{k}.inv_step.{nm}", s, g, kind="inv", site=node.lineno)
         return outs
 
@@ -873,11 +900,15 @@ class Engine:
                 outs.append((s, vals))
                 continue
             res = True
-            for op, a, b in zip(node.ops, vals, vals[1:]):
-                r = compare(s, type(op), a, b)
-                res = r if res is True else norm(SBool(bool_term(zand(bool_term_v(res), bool_term_v(r)))))
-                if res is False:
-                    break
+            try:
+                for op, a, b in zip(node.ops, vals, vals[1:]):
+                    r = compare(s, type(op), a, b)
+                    res = r if res is True else norm(SBool(bool_term(zand(bool_term_v(res), bool_term_v(r)))))
+                    if res is False:
+                        break
+            except ops.PyRaises as e:
+                outs.append((s, RaiseExc(e.cls, e.msg)))
+                continue
             outs.append((s, res))
         return outs
 
@@ -1103,6 +1134,11 @@ class Engine:
             return [(st, PyBoundBuiltin(o, name))]
         if isinstance(o, (int, float)):
             return [(st, PyBoundBuiltin(o, name))]
+        import types as _types
+        if isinstance(o, _types.ModuleType) and not o.__name__.startswith("pyrtcm"):
+            v = getattr(o, name, None)
+            if isinstance(v, type) and issubclass(v, BaseException):
+                return [(st, v)]  # an exception class of a standard module (socket.timeout, zlib.error ...): itself
         if self.inline and not isinstance(o, (Sym, Ref)):
             return [(st, PyBoundBuiltin(o, name))]  # cross-check mode: a real external object (BytesIO ...)
         raise EngineUnsupported(f"attribute {name} of {o!r}")
